@@ -215,20 +215,37 @@ def as_map(report_items):
 
 
 def entry_moved_away(log):
-    """witness-derived: in the killed run an entry directory K_* was renamed out of the entry
-    namespace (old value moved away) and nothing was renamed into that path before the kill"""
-    away = set()
-    for op, detail in log:
-        if op.endswith('rename') and '->' in detail:
-            src, dst = detail.rsplit(' ', 1)[0].split('->', 1) if detail.rsplit(' ', 1)[-1].lstrip('-').isdigit() else detail.split('->', 1)
-            if op.startswith('KILL-BEFORE'):
-                continue
-            sb, db = os.path.basename(src), os.path.basename(dst)
-            if sb.startswith('K_') and db.startswith('.I_'):
-                away.add(src)
-            if dst in away:
-                away.discard(dst)
-    return bool(away)
+    """witness-derived classifier of the recorded overwrite window of dir_archive: in the killed run
+    the old entry directory K_* had been renamed out of the entry namespace, and the kill came
+    before the (already fully staged) new entry was renamed in - i.e. after the rename-away the
+    run did nothing but remove the moved-away directory. Staging work (mkdir/open/write/close)
+    *after* the old entry was moved away is NOT this window."""
+    idx = None
+    for n, (op, detail) in enumerate(log):
+        if op == 'rename' and '->' in detail:
+            d = detail.rsplit(' ', 1)[0] if detail.rsplit(' ', 1)[-1].lstrip('-').isdigit() else detail
+            src, dst = d.split('->', 1)
+            if os.path.basename(src).startswith('K_') and os.path.basename(dst).startswith('.I_'):
+                idx = n
+            elif idx is not None and os.path.basename(dst).startswith('K_'):
+                idx = None        # something was renamed in again
+    if idx is None:
+        return False
+    tail = log[idx + 1:]
+    for op, detail in tail:
+        if op.startswith('KILL-BEFORE-'):
+            what = op[len('KILL-BEFORE-'):]
+            if what in ('unlink', 'rmdir'):
+                if '/.I_' not in detail:
+                    return False
+            elif what != 'rename':
+                return False
+        elif op in ('unlink', 'rmdir'):
+            if '/.I_' not in detail:
+                return False
+        else:
+            return False
+    return True
 
 
 def judge(case, s0_rep, s1_rep, rep, where, killed_event, log=()):
